@@ -444,16 +444,18 @@ vector<Graph_SP> Graph::getConnComps(void) const {
 
 void Graph::getChainsAndCycles(std::vector<std::deque<Node_SP> > &chains, std::vector<std::deque<Node_SP> > &cycles) {
     // First identify all links in the Graph, i.e. Nodes of degree 2.
-    std::set<Node_SP> allLinks;
+    // Keyed by node id (not by address), so that the order in which chains
+    // are discovered does not depend on where nodes happen to be allocated.
+    NodesById allLinks;
     for (auto p : m_nodes) {
         Node_SP u = p.second;
-        if (u->getDegree() == 2) allLinks.insert(u);
+        if (u->getDegree() == 2) allLinks.insert({u->id(), u});
     }
     // Now we explore all the links, building chains and cycles.
     while (!allLinks.empty()) {
         // Take any link still in the set.
         auto it = allLinks.begin();
-        Node_SP L0 = *it;
+        Node_SP L0 = it->second;
         allLinks.erase(it);
         // Initialise a deque to hold all links in the chain to which L0 belongs.
         std::deque<Node_SP> links{L0};
@@ -481,7 +483,7 @@ void Graph::getChainsAndCycles(std::vector<std::deque<Node_SP> > &chains, std::v
                     done = true;
                 } else if (next->getDegree() == 2) {
                     // This must be a link which we have not encountered before.
-                    allLinks.erase(next);
+                    allLinks.erase(next->id());
                     // Add this link to the correct side of the deque, according to the
                     // direction in which we are currently exploring.
                     if (direc == 1) {
